@@ -18,7 +18,7 @@ from harness.translate import evalwrite
 
 ID = 'C01'
 PROPS = 'theories/Props/C01.v'
-MODEL_TARGETS = ['theories/C01/Run.vo']
+MODEL_TARGETS = ['theories/C01/Run.vo', 'theories/C01/RichRun.vo']
 TRANSLATORS = [evalwrite.translate]
 TIE = 'translator (refresh after write) + trace acceptance of the real hub on a virtual clock against the Coq LTS'
 ALLOWED_AXIOMS = []
@@ -33,6 +33,10 @@ ASSUMPTIONS = [
     'writes to ports with an expression, expressions assigned to ports at rest and not reading their own port; stateless, '
     'time-independent expressions',
     'enable/disable and write transforms are exercised by the spec oracle only (known finding: write transform without inverse)',
+    'typed stream (number / integer / boolean ports, the hub\'s own VirtualPort, unavailable values, coercion): no latencies, '
+    'commands issued at rest, expressions over lower-numbered ports only, no NaN / infinite values, no transforms; the '
+    'specification (Expr.Spec.sem + adapt_value_type) is evaluated in Coq on the state the hub reports at rest; nothing is '
+    'required when the evaluation fails with an error other than unavailability',
 ]
 
 EXPRS = ['$p{a}', 'ADD($p{a}, $p{b})', 'MUL($p{a}, 2)', 'SUB($p{a}, 1)', 'IF(GT($p{a}, 2), $p{b}, 7)', 'MIN($p{a}, $p{b})',
@@ -251,23 +255,196 @@ def _short(sc):
     return {'ports': sc['ports'], 'script': sc['script']}
 
 
+# ----------------------------------------------------------------------------------------------------------------
+# second stream: typed ports (number / integer / boolean; harness ports and the hub's own VirtualPort), unavailable values
+
+RICH_KINDS = ['hint', 'hnum', 'hbool', 'vint', 'vnum', 'vbool']
+RICH_FUNCS = {'ADD': (2, 3), 'SUB': (2, 2), 'MUL': (2, 2), 'DIV': (2, 2), 'MIN': (2, 3), 'MAX': (2, 3), 'IF': (3, 3), 'GT': (2, 2),
+              'LT': (2, 2), 'EQ': (2, 2), 'AND': (2, 2), 'OR': (2, 2), 'NOT': (1, 1), 'ABS': (1, 1), 'FLOOR': (1, 1), 'CEIL': (1, 1),
+              'ROUND': (1, 1), 'AVAILABLE': (1, 1), 'DEFAULT': (2, 2), 'SGN': (1, 1), 'AVG': (2, 3)}
+COQ_KIND = {'hint': 'KInt', 'vint': 'KInt', 'hnum': 'KNum', 'vnum': 'KNum', 'hbool': 'KBool', 'vbool': 'KBool'}
+
+
+def rich_value(rng, kind):
+    if rng.random() < 0.15:
+        return None
+    if kind.endswith('bool'):
+        return rng.random() < 0.5
+    if kind.endswith('int'):
+        return rng.randint(-5, 10)
+    return rng.choice([0.0, 0.5, 1.0, 2.5, -1.5, 3.0, 7.25, 10.0, -0.0, float(rng.randint(-5, 10))])
+
+
+def rich_tree(rng, refs, depth):
+    from harness.props import c02
+    if depth <= 0 or rng.random() < 0.3:
+        if rng.random() < 0.7:
+            return ('pv', rng.choice(refs))
+        return ('lit',) + c02.lit_text(None, rng.choice([0, 1, 2, 3, -1, 5, 0.5, 2.5, 10]))
+    name = rng.choice(sorted(RICH_FUNCS))
+    lo, hi = RICH_FUNCS[name]
+    return ('call', name, [rich_tree(rng, refs, depth - 1) for _ in range(rng.randint(lo, hi))])
+
+
+def gen_rich(rng):
+    n = rng.randint(2, 6)
+    ports = []
+    for i in range(n):
+        k = rng.choice(RICH_KINDS)
+        ports.append({'id': 'p%d' % i, 'kind': k, 'value': rich_value(rng, k)})
+    script, trees = [], {}
+    followers = sorted(rng.sample(range(1, n), rng.randint(1, n - 1)))
+    for q in followers:
+        t = rich_tree(rng, ['p%d' % j for j in range(q)], rng.choice([0, 1, 1, 2, 3]))
+        if t[0] == 'lit':
+            t = ('pv', 'p%d' % rng.randrange(q))
+        trees['p%d' % q] = t
+    order = list(followers)
+    rng.shuffle(order)
+    pending = list(order)
+    sources = [i for i in range(n) if i not in followers]
+    for _ in range(rng.randint(2, 9)):
+        r = rng.random()
+        if pending and r < 0.5:
+            q = pending.pop()
+            script.append(['expr', 'p%d' % q, trees['p%d' % q]])
+        elif r < 0.9 or not sources:
+            i = rng.choice(sources) if sources else 0
+            script.append(['set', 'p%d' % i, rich_value(rng, ports[i]['kind'])])
+        else:
+            i = rng.choice(sources)
+            script.append(['disable', 'p%d' % i])
+            script.append(['set', 'p%d' % rng.choice(sources), rich_value(rng, ports[rng.choice(sources)]['kind'])])
+            if rng.random() < 0.8:
+                script.append(['enable', 'p%d' % i])
+    for q in pending:
+        script.append(['expr', 'p%d' % q, trees['p%d' % q]])
+    if sources:       # finish with changes after every expression is in place
+        for _ in range(rng.randint(1, 3)):
+            i = rng.choice(sources)
+            script.append(['set', 'p%d' % i, rich_value(rng, ports[i]['kind'])])
+    # 'set' values must fit the kind of the port they go to
+    for c in script:
+        if c[0] == 'set':
+            k = ports[int(c[1][1:])]['kind']
+            v = c[2]
+            if v is not None:
+                c[2] = bool(v) if k.endswith('bool') else (int(v) if k.endswith('int') else float(v))
+    return {'ports': ports, 'script': script}
+
+
+RICH_CORPUS = [
+    # a virtual follower of a sensor that becomes unavailable must become unavailable itself
+    {'ports': [{'id': 'p0', 'kind': 'hnum', 'value': 21.5}, {'id': 'p1', 'kind': 'vnum', 'value': None},
+               {'id': 'p2', 'kind': 'vnum', 'value': None}],
+     'script': [['expr', 'p1', ('pv', 'p0')], ['expr', 'p2', ('call', 'ADD', [('pv', 'p1'), ('lit', '1', 1)])], ['set', 'p0', None]]},
+    # boolean and integer coercion of a float result
+    {'ports': [{'id': 'p0', 'kind': 'hnum', 'value': 2.5}, {'id': 'p1', 'kind': 'hint', 'value': 0}, {'id': 'p2', 'kind': 'vbool', 'value': None}],
+     'script': [['expr', 'p1', ('call', 'MUL', [('pv', 'p0'), ('lit', '1.5', 1.5)])], ['expr', 'p2', ('call', 'SUB', [('pv', 'p0'), ('lit', '2.5', 2.5)])],
+                ['set', 'p0', -0.5]]},
+]
+
+
+def run_rich_worker(scenarios):
+    from harness.props import c01_rich_worker as w
+    from harness.props import c02
+    wire = []
+    for sc in scenarios:
+        wire.append({'ports': [{'id': p['id'], 'kind': p['kind'], 'value': w.enc(p['value'])} for p in sc['ports']],
+                     'script': [[c[0], c[1], (c02.text_of(c[2]) if c[0] == 'expr' else w.enc(c[2]))] if len(c) > 2 else c
+                                for c in sc['script']]})
+    env = dict(os.environ)
+    env['PYTHONPATH'] = coq.VERIF + ':' + repo.REPO
+    p = subprocess.run([sys.executable, '-m', 'harness.props.c01_rich_worker'], input=json.dumps(wire), capture_output=True,
+                       text=True, env=env, cwd=coq.VERIF, timeout=1800)
+    if p.returncode != 0:
+        raise RuntimeError('worker failed: ' + p.stderr[-1500:])
+    return wire, json.loads(p.stdout)
+
+
+def check_rich(ctx, res, scenarios, tag):
+    from harness.common import pyvals
+    from harness.props import c01_rich_worker as w
+    from harness.props import c02
+    t0 = time.time()
+    wire, results = run_rich_worker(scenarios)
+    res['extra']['impl_wall_s'] = round(res['extra'].get('impl_wall_s', 0) + time.time() - t0, 2)
+    rows, meta = [], []
+    d = res['distribution']
+    for sc, ws, r in zip(scenarios, wire, results):
+        res['evaluations'] += 1
+        d['typed_scenarios'] = d.get('typed_scenarios', 0) + 1
+        if r.get('error'):
+            res['tie_failures'].append({'scenario': ws, 'note': 'typed stream: worker error: ' + r['error'][-500:]})
+            continue
+        if not r['quiescent']:
+            d['typed_not_quiescent'] = d.get('typed_not_quiescent', 0) + 1
+            res['tie_failures'].append({'scenario': ws, 'note': 'typed stream: the hub did not come to rest'})
+            continue
+        trees = {}
+        for c in sc['script']:
+            if c[0] == 'expr':
+                trees[c[1]] = c[2]
+        for pid, kind, en, last, text in r['ports']:
+            d['typed_kind:' + kind] = d.get('typed_kind:' + kind, 0) + 1
+            if last is None:
+                d['typed_unavailable_at_rest'] = d.get('typed_unavailable_at_rest', 0) + 1
+            if (pid in trees) != (text is not None):
+                res['tie_failures'].append({'scenario': ws, 'note': 'typed stream: port %s expression %r after assigning %r'
+                                                                    % (pid, text, c02.text_of(trees[pid]) if pid in trees else None)})
+        ps = coq.lst(['(%s, %s, %s, %s)' % (coq.string(pid), COQ_KIND[kind], coq.boolean(en), pyvals.opt_pyval(w.dec(last)))
+                      for pid, kind, en, last, text in r['ports']])
+        ex = coq.lst(['(%s, %s)' % (coq.string(q), c02.coq_expr(t)) for q, t in sorted(trees.items())])
+        rows.append('(%s, %s)' % (ps, ex))
+        meta.append((ws, r))
+    if not ctx.model_ok:
+        res['tie_failures'].append('model not built; typed cases not evaluated')
+        return
+    if not rows:
+        return
+    outs = coq.eval_shards(ctx.workdir, 'c01rich' + tag, 'From QT Require Import C01.RichRun.\nOpen Scope Z_scope.\n',
+                           ['Definition rcases : list (list rport * list (string * expr)) := [\n %s].\n' % ';\n '.join(rows)],
+                           ['bad_rich rcases'], timeout=1200)
+    for rc, lists, err in outs:
+        if rc != 0 or len(lists) != 1:
+            res['tie_failures'].append('coqc failed on the typed C01 cases: %s' % err[-800:])
+            continue
+        for i in lists[0]:
+            ws, r = meta[i]
+            res['violations'].append({
+                'key': {'kind': 'not-following-at-quiescence', 'stream': 'typed',
+                        'unavailable_involved': any(p[3] is None for p in r['ports']),
+                        'virtual_follower': any(p[1].startswith('v') and p[4] for p in r['ports'])},
+                'what': 'quiescent hub, but a port does not hold the (coerced) value of its expression, or is not unavailable '
+                        'while its expression is: ports (id, kind, enabled, last value, expression) = %r' % (r['ports'],),
+                'case': ws, 'observed': r['ports']})
+
+
 def check(ctx, res):
     res['rule'] = ('scenarios of 2-6 integer ports (sources + followers with acyclic stateless expressions), driver read latencies '
                    '0-120 ms and write latencies 0-200 ms, bursts of source changes incl. a->b->a inside a write latency, 25% with '
                    'disable/enable of a read port; real update_loop at 50 ms ticks on a virtual clock; distinct non-trivial = '
-                   'scenario with at least one driver write and at least one non-zero latency')
+                   'scenario with at least one driver write and at least one non-zero latency. Second stream: 2-6 typed ports '
+                   '(harness number/integer/boolean ports and real virtual ports), random stateless expressions of depth <= 3 over '
+                   '21 functions, source changes incl. unavailable, disable/enable of sources; checked at rest after every command')
     n = ctx.n(160, 6000)
     scenarios = list(CORPUS) + [gen_scenario(ctx.rng, True) for _ in range(n)]
     for i in range(0, len(scenarios), 400):
         check_batch(ctx, res, scenarios[i:i + 400], 'b%d' % i)
     for sc in scenarios[:4]:
         res['samples'].append(_short(sc))
+    rich = list(RICH_CORPUS) + [gen_rich(ctx.rng) for _ in range(ctx.n(600, 6000))]
+    for i in range(0, len(rich), 1000):
+        check_rich(ctx, res, rich[i:i + 1000], 'r%d' % i)
 
 
 def search(ctx, res):
     scenarios = [gen_scenario(ctx.rng, False) for _ in range(ctx.n(600, 6000))]
     for i in range(0, len(scenarios), 400):
         check_batch(ctx, res, scenarios[i:i + 400], 's%d' % i)
+    rich = [gen_rich(ctx.rng) for _ in range(ctx.n(1500, 6000))]
+    for i in range(0, len(rich), 1000):
+        check_rich(ctx, res, rich[i:i + 1000], 'sr%d' % i)
 
 
 REPLAY_HELP = 'echo "[<case>]" | PYTHONPATH=/verif:/repo /venv/bin/python -m harness.props.c01_worker'
